@@ -81,12 +81,11 @@ m('c07-retry-with-test', ['C07', 'C15'], WD, 'if self.parser.push(lo_token).is_o
 m('c07-drop-number-end', ['C07', 'C15'], WD, '            Err(_) if self.parser.has_number() => {\n                self.number_end();', '            Err(_) if self.parser.has_number() => {', 'B14-SCANNER')
 m('c07-second-interpreter', 'C07', WD, '        let text = token.text();\n        if !(', '        let text = token.text();\n        let _ = self.lang.apply(token.text_lowercase(), &mut DigitString::new());\n        if !(', 'B15-SHARED')
 # --- C08
-m('c08-en-seven-unguarded', 'C08', EN, '"seven" | "seventh" if b.peek(2) != b"10" => b.put(b"7"),', '"seven" | "seventh" => b.put(b"7"),', 'A7-GUARD-ATOMS')
-m('c08-fr-trois-deux', 'C08', FR, '"trois" | "troisième" if !blocked.contains(Excludable::TROIS)', '"trois" | "troisième" if !blocked.contains(Excludable::DEUX)', 'A7-GUARD-ATOMS')
-m('c08-de-vier-no-block', 'C08', DE, '            "vier" | "vierte" if b.is_free(2) => {\n                to_block = Excludable::TENS;\n                b.put(b"4")', '            "vier" | "vierte" if b.is_free(2) => {\n                b.put(b"4")', 'A7-GUARD-ATOMS')
-m('c08-pt-onze-unblocked', 'C08', PT, '"onze" if !smaller_blocked => b.put(b"11"),', '"onze" => b.put(b"11"),', 'A7-GUARD-ATOMS')
+m('c08-en-seven-unguarded', 'C08', EN, '"seven" | "seventh" if b.peek(2) != b"10" => b.put(b"7"),', '"seven" | "seventh" => b.put(b"7"),', 'A7')
+m('c08-de-vier-no-block', 'C08', DE, '            "vier" | "vierte" if b.is_free(2) => {\n                to_block = Excludable::TENS;\n                b.put(b"4")', '            "vier" | "vierte" if b.is_free(2) => {\n                b.put(b"4")', 'A7')
+m('c08-pt-onze-unblocked', 'C08', PT, '"onze" if !smaller_blocked => b.put(b"11"),', '"onze" => b.put(b"11"),', 'A7')
 m('c08-es-y-unguarded', 'C08', ES, '"y" if b.len() >= 2 => Err(Error::Incomplete),', '"y" => Err(Error::Incomplete),', 'A10-CONJ')
-m('c08-nl-flags-not-cleared', 'C08', NL, '        } else {\n            b.flags = 0;\n        }\n        status\n    }\n\n    fn apply_decimal', '        } else {\n            b.flags = b.flags & 1;\n        }\n        status\n    }\n\n    fn apply_decimal', 'A7-GUARD-ATOMS')
+m('c08-nl-flags-not-cleared', 'C08', NL, '        } else {\n            b.flags = 0;\n        }\n        status\n    }\n\n    fn apply_decimal', '        } else {\n            b.flags = b.flags & 1;\n        }\n        status\n    }\n\n    fn apply_decimal', 'A7')
 # --- C09
 m('c09-policy-eq', 'C09', WD, 'if self.last_contiguous_match != kind {\n            self.last_contiguous_match = MatchKind::None;', 'if self.last_contiguous_match == kind {\n            self.last_contiguous_match = MatchKind::None;', 'B16-POLICY')
 m('c09-drop-take', 'C09', WD, '            self.matches.push_back(occurence);\n            self.on_hold.take();', '            self.matches.push_back(occurence);', 'B16-POLICY')
@@ -135,7 +134,7 @@ m('c15-nan-skip-previous', 'C15', WD, '            self.outside_number(&token);\
 m('c15-pop-back', 'C15', WD, '        self.matches.pop_front()', '        self.matches.pop_back()', 'B14-ITERATOR')
 m('c15-eager-new', 'C15', WD, '    fn new(input: I, lang: &\'a L, threshold: f64) -> Self {\n        Self {', '    fn new(mut input: I, lang: &\'a L, threshold: f64) -> Self {\n        let _peeked = if threshold.is_nan() { input.next() } else { None };\n        Self {', 'B14-ITERATOR')
 # --- C16
-m('c16-revert-f13', 'C16', IT, '"milione" if b.is_range_free(6, 8) => {\n                if b.peek(2) != b"1" {', '"milione" if b.is_range_free(6, 8) => {\n                if b.len() != 1 || b.peek(1) != b"1" {', 'A9-LEN')
+m('c16-revert-f13', 'C16', IT, '"milione" if b.is_range_free(6, 8) => {\n                if b.peek(2) != b"1" {', '"milione" if b.is_range_free(6, 8) => {\n                if b.len() != 1 || b.peek(1) != b"1" {', 'A9b')
 m('c16-en-zero-guarded', ['C16', 'C08'], EN, '"zero" | "o" | "nought" => b.put(b"0"),\n            "one"', '"zero" | "o" | "nought" if b.is_empty() => b.put(b"0"),\n            "one"', 'A6-ZERO')
 m('c16-is-empty-ignores-zeros', ['C16', 'C12'], DS, '        self.buffer.is_empty() && self.leading_zeroes == 0\n', '        self.buffer.is_empty()\n', 'B6-FIELD')
 m('c16-count-zero-nonempty', ['C16', 'C12', 'C08'], DS, '        if self.buffer.is_empty() && digits == b"0" {', '        if digits == b"0" {', 'B5-WRITE')
@@ -160,4 +159,4 @@ m('c01-es-mil-01', 'C01', ES, '                if peek == b"1" {\n              
 m('c04-en-group-no-marker', 'C04', EN, '                    if ds.marker.is_ordinal() {\n                        b.marker = ds.marker;\n                        b.freeze()\n                    }', '                    if ds.marker.is_ordinal() {\n                        b.freeze()\n                    }', 'A2b-GROUP')
 m('c04-it-group-no-freeze', 'C04', IT, '                    if marker.is_ordinal() {\n                        b.marker = marker;\n                        b.freeze()\n                    }', '                    if marker.is_ordinal() {\n                        b.marker = marker;\n                    }', 'A2b-GROUP')
 m('c08-fr-unsix-31', 'C08', FR, 'const UN_SIX = 63;// all previous OR\'ed', 'const UN_SIX = 31;// all previous OR\'ed', 'A7b-BLOCK')
-m('c07-en-ten-put-then-err', 'C07', EN, '"ten" | "tenth" => b.put(b"10"),', '"ten" | "tenth" => {\n                let r = b.put(b"10");\n                if b.len() > 12 { b.freeze(); Err(Error::Overlap) } else { r }\n            }', 'A8-ARM-ATOMIC')
+m('c07-en-ten-put-then-err', 'C07', EN, '"ten" | "tenth" => b.put(b"10"),', '"ten" | "tenth" => {\n                let r = b.put(b"10");\n                if b.len() > 12 { b.freeze(); Err(Error::Overlap) } else { r }\n            }', 'A8b')
